@@ -101,6 +101,9 @@ def verdict_clauses(expected: List[list], recorded: List[list], prog: dict) -> L
             res.append(("inv.unexpected_evaluation", what))
         elif ecls == "ret" and rcls == "ret" and ev_ != rv_:
             res.append(("ret.result_identity", what))
+        elif ecls in VIOLATION_CLS and rcls not in ("ret", ecls):
+            # a violation was due in the contract's configured form; the caller got something of another class
+            res.append(("err.form_dispatch", what))
     return res
 
 
